@@ -298,8 +298,8 @@ func pruningWiring(r *Run, rule string) {
 				got[P.TermAt(s.Addr, s).String()] = P.TermAt(s.Val, s).String()
 			}
 		})
-		r.Check(got["&param:st.numRecent"] == "(store/types.PruningOptions).KeepRecent(param:opt)", rule, "SetPruning/numRecent", P.Pos(f.Pos()), got["&param:st.numRecent"], "numRecent := "+got["&param:st.numRecent"])
-		r.Check(got["&param:st.storeEvery"] == "(store/types.PruningOptions).KeepEvery(param:opt)", rule, "SetPruning/storeEvery", P.Pos(f.Pos()), got["&param:st.storeEvery"], "storeEvery := "+got["&param:st.storeEvery"])
+		r.Check(got["&param:st.numRecent"] == "param:opt.keepRecent", rule, "SetPruning/numRecent", P.Pos(f.Pos()), got["&param:st.numRecent"], "numRecent := "+got["&param:st.numRecent"])
+		r.Check(got["&param:st.storeEvery"] == "param:opt.keepEvery", rule, "SetPruning/storeEvery", P.Pos(f.Pos()), got["&param:st.storeEvery"], "storeEvery := "+got["&param:st.storeEvery"])
 	}
 	if f := r.fn("store/iavl.UnsafeNewStore"); f != nil {
 		for _, ret := range Returns(f) {
@@ -320,7 +320,7 @@ func pruningWiring(r *Run, rule string) {
 		for _, c := range CallsIn(f, "store/iavl.UnsafeNewStore") {
 			t := P.callTerm(c)
 			a1, a2 := argTerm(t, 1).String(), argTerm(t, 2).String()
-			if a1 == "(store/types.PruningOptions).KeepRecent(param:pruning)" && a2 == "(store/types.PruningOptions).KeepEvery(param:pruning)" {
+			if a1 == "param:pruning.keepRecent" && a2 == "param:pruning.keepEvery" {
 				okWire = true
 			} else if !(a1 == "0" && a2 == "0") {
 				okWire = false
